@@ -46,6 +46,8 @@ impl Reservoir {
 
     fn push(&self, value: f64) {
         let idx = self.count.fetch_add(1, Relaxed);
+        #[cfg(metrics_verif)]
+        metrics::verif::point("reservoir.push.after_claim", idx);
         if idx < self.values.len() {
             self.values[idx].store(value.to_bits(), Relaxed);
         } else {
@@ -112,6 +114,8 @@ impl ExactSizeIterator for Drain<'_> {
 
 impl<'a> Drop for Drain<'a> {
     fn drop(&mut self) {
+        #[cfg(metrics_verif)]
+        metrics::verif::point("reservoir.drain.before_reset", 0);
         self.reservoir.count.store(0, Release);
     }
 }
@@ -159,6 +163,8 @@ impl AtomicSamplingReservoir {
     /// Pushes a sample into the reservoir.
     pub fn push(&self, value: f64) {
         let use_primary = self.use_primary.load(Relaxed);
+        #[cfg(metrics_verif)]
+        metrics::verif::point("reservoir.push.after_side_load", use_primary as usize);
         if use_primary {
             self.primary.push(value);
         } else {
@@ -178,6 +184,8 @@ impl AtomicSamplingReservoir {
         // Swap the active reservoir.
         let use_primary = self.use_primary.load(Acquire);
         self.use_primary.store(!use_primary, Release);
+        #[cfg(metrics_verif)]
+        metrics::verif::point("reservoir.consume.after_swap", 0);
 
         // Consume the previous reservoir.
         let drain = if use_primary { self.primary.drain() } else { self.secondary.drain() };
